@@ -634,11 +634,11 @@ func shortFn(k string) string {
 
 func runC04(e *Engine, r *Report, tier string) {
 	r.Explanation = "C04, structural necessary conditions of bridge solvency, decided on the success paths of the routines that move bridged value (x/crosschain/keeper). " +
-		"R1 path ledger: on every success path of a routine that calls the bank keeper with a module account, each coin that is minted is paid out and each coin that is burned was collected on that path (module escrow unchanged when supply changes), all operations use one module account and one holder, and every amount is the amount of the routine's coin parameter. " +
+		"R1 path ledger: on every success path of a routine that calls the bank keeper with a module account, each coin that is minted is paid out and each coin that is burned was collected on that path (module escrow unchanged when supply changes), all operations use one module account and one holder, and every amount is the amount of the routine's coin parameter; a success path without any operation is accepted only when the coin is FX, is not the representation the routine converts, or the test is on the coin's own amount. " +
 		"R2/R3 inverse agreement: every routine that releases value from a module account (mint or module->account) has, in the same package, a routine that undoes it for every token kind (FX, module-owned pair, externally-owned pair) and conversion direction: branch conditions are interpreted over that finite configuration space and the supply and holder effects of each pair of paths must cancel; a releasing routine with no inverse is a second, unproved implementation of deposit/refund. " +
 		"R4 holder agreement: coins credited to an account by a crediting routine are later debited only from that account (or after an explicit transfer to the debited account). " +
 		"R5 escrowed amount = recorded in-flight amount at creation of pool entries and outgoing bridge calls. R6 imports the refund-amount, fee-increase amount and same-token obligations decided under C05. " +
-		"Not decided: balances and supply at run time over histories, success paths that perform no operation at all, loops (routines with loops are only subject to R3), the bank and erc20 keepers' own behaviour, the migration of escrow held by earlier versions."
+		"Not decided: balances and supply at run time over histories, loops (routines with loops are only subject to R3), the bank and erc20 keepers' own behaviour, the migration of escrow held by earlier versions."
 	r.Rule("R1", "per success path: mint => paid out, burn => collected; one module account, one holder, one amount", 6, "routines with own bank-module operations")
 	r.Rule("R2", "releasing routine has an inverse routine for every token kind and direction", 4, "routines with own mint / module->account")
 	r.Rule("R3", "no releasing routine outside the inverse-agreement proof", 1, "same set as R2")
@@ -735,6 +735,37 @@ func runC04(e *Engine, r *Report, tier string) {
 			}
 			if len(holds) > 1 {
 				bad = "a success path collects from / pays to more than one account: " + strings.Join(keysOf(holds), ", ")
+			}
+		}
+		// a success path that performs no operation at all is only acceptable where the routine has nothing to do:
+		// the coin is FX, is not the representation the routine converts, or the test is on the coin's own amount
+		if bad == "" && vr.CoinPar != "" {
+			for _, p := range vr.Paths {
+				if len(p.Events) > 0 {
+					continue
+				}
+				okNoop := false
+				for a, v := range p.Atoms {
+					if iv, known := interpAtom(a, tokenCfg{"fx", "base"}, vr.CoinPar, vr.BasePar); known && strings.Contains(a, `"FX"`) && v == iv && v {
+						okNoop = true // coin is FX
+					}
+					if strings.HasPrefix(a, "call:HasPrefix(P:"+vr.CoinPar+".Denom,") {
+						okNoop = true // representation test on the coin's own denom
+					}
+					if strings.Contains(a, "P:"+vr.CoinPar+".Amount") || strings.HasPrefix(a, "call:IsZero(P:"+vr.CoinPar) || strings.HasPrefix(a, "call:IsPositive(P:"+vr.CoinPar) {
+						okNoop = true // nothing to move
+					}
+				}
+				if !okNoop {
+					var as []string
+					for a, v := range p.Atoms {
+						if !strings.HasPrefix(a, "ok:") && !strings.Contains(a, "nil") {
+							as = append(as, fmt.Sprintf("%s=%v", a, v))
+						}
+					}
+					sort.Strings(as)
+					bad = "a success path performs no value operation although the coin is neither FX nor of a representation the routine skips (conditions: " + strings.Join(as, "; ") + "): callers treat the conversion as done"
+				}
 			}
 		}
 		if bad != "" {
